@@ -1,0 +1,31 @@
+//go:build verif
+
+package io
+
+import (
+	"os"
+	"time"
+
+	"github.com/ipfs/go-cid"
+)
+
+// Verification hooks (accessors only, compiled only with -tags verif).
+
+// VerifEstimatedSize returns the size estimate a BasicDirectory tracks for its sharding decision.
+func (d *BasicDirectory) VerifEstimatedSize() int { return d.estimatedSize }
+
+// VerifTotalLinks returns the tracked number of links.
+func (d *BasicDirectory) VerifTotalLinks() int { return d.totalLinks }
+
+// VerifVarintLen exposes varintLen.
+func VerifVarintLen(v uint64) int { return varintLen(v) }
+
+// VerifLinkSerializedSize exposes linkSerializedSize.
+func VerifLinkSerializedSize(name string, c cid.Cid, tsize uint64) int {
+	return linkSerializedSize(name, c, tsize)
+}
+
+// VerifDataFieldSerializedSize exposes dataFieldSerializedSize.
+func VerifDataFieldSerializedSize(mode os.FileMode, mtime time.Time) int {
+	return dataFieldSerializedSize(mode, mtime)
+}
